@@ -509,7 +509,10 @@ def _strload(val: str) -> PythonValueT:
     with contextlib.suppress(ValueError):
         return compat.json.loads(val)
 
-    with contextlib.suppress(ValueError, TypeError, SyntaxError):
+    # (`literal_eval` also raises these two on malformed input, e.g. long prose.)
+    with contextlib.suppress(
+        ValueError, TypeError, SyntaxError, MemoryError, RecursionError
+    ):
         return ast.literal_eval(val)
 
     return val
